@@ -1072,12 +1072,12 @@ pub fn main(args: &Args) {
         return;
     }
     let mut rng = Rng::new(seed ^ if focus_limits { 0x6006 } else { 0x5005 });
+    let only = args.str("only-transport").and_then(|s| s.parse().ok()).and_then(tcp::Tk::of_tag); // e.g. 9002: QUIC cases only
     for i in 0..ncases {
         let mut r = rng.fork();
-        let (c, t) = if !focus_limits && i % tcp::share(thorough) == 9 {
-            tcp_stream.run_generated(&rt, &mut r, thorough)
-        } else {
-            run_generated(&rt, &mut r, thorough, focus_limits)
+        let (c, t) = match tcp::stream_of(i, thorough, only).filter(|_| !focus_limits) {
+            Some(k) => tcp_stream.run_generated(&rt, k, &mut r, thorough),
+            None => run_generated(&rt, &mut r, thorough, focus_limits),
         };
         out.emit(&c, &t);
     }
